@@ -328,6 +328,19 @@ def _(root):
     open(p, 'w').write(s[:i] + body + s[j:])
 
 
+@V('wraps-helper-in-tools-keeps-wrapped')
+def _(root):
+    """property-preserving: the decorators finish the wrapper through a helper of klepto.tools that copies the decorated function's attributes
+    except the cache interface and __wrapped__"""
+    sub_all(root, ('tools.py',), "__all__ = ['isiterable']\n",
+            "__all__ = ['isiterable']\n\n_INTERFACE = ('__wrapped__','info','clear','load','dump','archive','archived','key','lookup','__cache__','__mask__','__map__')\n\n"
+            "def _wraps(wrapper, wrapped):\n    from functools import update_wrapper\n    update_wrapper(wrapper, wrapped, updated=())\n    attrs = getattr(wrapped, '__dict__', {})\n"
+            "    wrapper.__dict__.update((k,v) for (k,v) in attrs.items() if k not in _INTERFACE)\n    return wrapper\n")
+    for fn in CACHES:
+        sub_all(root, (fn,), "from klepto.tools import CacheInfo\n", "from klepto.tools import CacheInfo, _wraps\n")
+        sub_all(root, (fn,), "return update_wrapper(wrapper, user_function)", "return _wraps(wrapper, user_function)")
+
+
 @V('signature-self-drop-guarded-by-emptiness')
 def _(root):
     """property-preserving: the instance is dropped only when there are names at all (slicing an empty tuple is a no-op), and the inspected callable
